@@ -650,6 +650,10 @@ class Triangle(Polygon, Simplex):
 
         # TODO: vectorize
 
+        if self.dim > 2:
+            # the determinants below need plane coordinates; the general polygon test projects into the plane
+            return super().contains(other)
+
         a, b, c, p = np.broadcast_arrays(*self.normalized_array, other.normalized_array)
 
         lambda1 = det(np.stack([p, b, c], axis=-2))
